@@ -86,6 +86,8 @@ def apply_directives(body, directives, unit):
         body.rule_opaque_macros()
     if "spawn" in rules:
         body.rule_spawn_inline()
+    if "vecchain" in rules:
+        body.rule_vec_chain()
     body.rule_closure_underscore()
     toks = body.toks
     loops = None
@@ -247,6 +249,7 @@ def splice(template_path, repo_root, canary=False):
     out = []          # generated lines
     fns = []
     pending_tag = None
+    inline_reports = []
     i = 0
     n = len(lines)
 
@@ -264,6 +267,8 @@ def splice(template_path, repo_root, canary=False):
                 unit["features_on"] = tuple(kv["features_on"].split(","))
             if "features_off" in kv:
                 unit["features_off"] = tuple(kv["features_off"].split(","))
+            if "rlimit" in kv:
+                unit["rlimit"] = int(kv["rlimit"])
             i += 1
             continue
         if s.startswith("//@USUB"):
@@ -359,6 +364,38 @@ def splice(template_path, repo_root, canary=False):
             fns.append(info)
             pending_tag = None
             continue
+        if s.startswith("//@INLINE"):
+            # the real body of `fn`, as a block expression, inside a function written in the template (used for relational
+            # contracts over two real bodies); `self=NAME` renames the receiver
+            kv = parse_kv(s[9:])
+            directives = []
+            i += 1
+            while i < n and not lines[i].strip().startswith("//@END"):
+                d = lines[i].strip()
+                if d.startswith("//@|"):
+                    directives[-1] = (directives[-1][0], directives[-1][1] + "\n" + d[4:])
+                elif d.startswith("//@"):
+                    m = re.match(r"//@\s*((?:before|after)\s+\"(?:[^\"\\]|\\.)*\"(?:#\d+)?|[\w.*?]+(?:\([^)]*\))?)\s*:(.*)$", d, re.S)
+                    if not m:
+                        raise TemplateError(f"bad directive line: {d}")
+                    directives.append((m.group(1), m.group(2).strip()))
+                i += 1
+            i += 1
+            src_path = os.path.join(repo_root, kv["src"])
+            if not os.path.exists(src_path):
+                raise LostAnchor(f"source file {kv['src']} missing")
+            body = Body(Source.get(src_path), kv["fn"], closure=kv.get("closure"))
+            if kv.get("self"):
+                for t in body.toks[body.open:body.close]:
+                    if t.kind == "ident" and t.text == "self":
+                        body.edits.append((t.start, t.end, kv["self"], "R5-self"))
+                body.report.append(("R5-self", f"receiver `self` named `{kv['self']}` (body inlined into a relational contract)"))
+            apply_directives(body, directives, unit)
+            text, linemap = body.render()
+            inline_reports.append((kv["fn"], kv["src"], body.first_line, body.report, list(body.lost_hints)))
+            for bl in text.split("\n"):
+                emit(bl)
+            continue
         if s.startswith("//@CANARY"):
             if canary:
                 emit("assert(false);")
@@ -389,6 +426,14 @@ def splice(template_path, repo_root, canary=False):
         for f in fns:
             if f.kind == "lemma" and getattr(f, "_template_end", None) == i:
                 f.end = len(out)
+                if inline_reports:
+                    f.src = "; ".join(f"{sp}:{ln} {q}" for (q, sp, ln, rp, lh) in inline_reports)
+                    f.qual = "relational: " + " + ".join(q for (q, sp, ln, rp, lh) in inline_reports)
+                    for (q, sp, ln, rp, lh) in inline_reports:
+                        f.report += [(r0, f"[{q}] {o}") for (r0, o) in rp]
+                        f.lost_hints += lh
+                    f.kind = "body"
+                    inline_reports = []
         if fns and fns[-1].kind == "lemma" and getattr(fns[-1], "_open_pending", False) and s == "{" :
             fns[-1]._open_pending = False
             if canary and not fns[-1].known:
